@@ -1,11 +1,11 @@
 """C19 - snapshot capture/replay round trip and loadability of the shipped snapshots."""
-import ast
 import glob
 import logging
 import os
 import re
 import struct as pystruct
 import traceback
+import warnings
 
 import translate
 import vloop
@@ -551,17 +551,24 @@ def run(ctx):
             sim.close()
 
     # ---------- (ii) bytes.__repr__ / replace / literal_eval against CPython: exhaustive singles and ordered pairs ----------
+    seg_snap = GeckoSnapshot()
+
+    def real_segment(body):
+        """the REAL GeckoSnapshot._re_data_segment on the group `STATV<idx><next><len=255>` + body: the bytes it decodes"""
+        try:
+            del seg_snap._status_block_segments[:]
+            with warnings.catch_warnings():
+                warnings.simplefilter("ignore")
+                seg_snap._re_data_segment(("STATV\\x01\\x01\\xff" + body,))
+            return "ok:" + hx(seg_snap._status_block_segments[-1])
+        except (SyntaxError, ValueError):
+            return "err:E_SYNTAX"
+        except Exception as e:  # noqa
+            return "err:" + type(e).__name__
+
     def rt(bs):
         r = repr(bs)
-        body = r[2:-1]
-        try:
-            v = ast.literal_eval("b'" + body.replace("'", "\\x27") + "'")     # the two statements of _re_data_segment
-            a = "ok:" + hx(v)
-        except SyntaxError:
-            a = "err:E_SYNTAX"
-        except ValueError:
-            a = "err:E_SYNTAX"
-        return hxs(r) + " " + a
+        return hxs(r) + " " + real_segment(r[2:-1])
     for a in range(256):
         op("rt " + hx(bytes([a])), rt(bytes([a])), "rt1")
     for a in range(256):
@@ -577,14 +584,7 @@ def run(ctx):
     lit_alpha = "\\\\\\'\"xX0123456789abcdefgnrtuN{}AZ z~"
     for _ in range(1500 if ctx.quick else 20000):
         t = "".join(rng.choice(lit_alpha) for _ in range(rng.randrange(0, 10)))
-        try:
-            import warnings
-            with warnings.catch_warnings():
-                warnings.simplefilter("ignore")
-                v = ast.literal_eval("b'" + t.replace("'", "\\x27") + "'")
-            a = "ok:" + hx(v)
-        except (SyntaxError, ValueError):
-            a = "err:E_SYNTAX"
+        a = real_segment(t)
         op("lit " + hxs(t), a, "lit")
 
     # ---------- the block expression + element parser, and every other expression, on adversarial lines ----------
